@@ -218,3 +218,1642 @@ def translate():
     L.append('')
     L.append('end Atomman.Gen.AtomStyles\n')
     return {'AtomStyles': '\n'.join(L)}
+
+
+# ----------------------------------------------------------------------------------------
+# shared: case descriptions, the real calls, the wire encoding
+# ----------------------------------------------------------------------------------------
+THEOREMS = []
+PARTIAL = {}
+RULE = ''
+ASSUMPTIONS = []
+TRUSTED = []
+
+# per-atom properties each atom_style needs besides id/type/pos: (prop, is_int, ncomp)
+STYLE_PROPS = {
+    'angle': [('m_id', 1, 1)], 'atomic': [], 'body': [('bflag', 1, 1), ('mass', 0, 1)], 'bond': [('m_id', 1, 1)],
+    'charge': [('charge', 0, 1)], 'dipole': [('charge', 0, 1), ('mu', 0, 3)],
+    'electron': [('charge', 0, 1), ('espin', 1, 1), ('eradius', 0, 1)],
+    'ellipsoid': [('eflag', 1, 1), ('density', 0, 1)], 'full': [('m_id', 1, 1), ('charge', 0, 1)],
+    'line': [('m_id', 1, 1), ('lflag', 1, 1), ('density', 0, 1)], 'meso': [('rho', 0, 1), ('e', 0, 1), ('cv', 0, 1)],
+    'molecular': [('m_id', 1, 1)], 'peri': [('volume', 0, 1), ('density', 0, 1)],
+    'smd': [('m_id', 1, 1), ('volume', 0, 1), ('mass', 0, 1), ('kradius', 0, 1), ('cradius', 0, 1)],
+    'sphere': [('diameter', 0, 1), ('density', 0, 1)],
+    'template': [('m_id', 1, 1), ('m_template', 1, 1), ('a_template', 1, 1)],
+    'tri': [('m_id', 1, 1), ('tflag', 1, 1), ('density', 0, 1)],
+    'wavepacket': [('charge', 0, 1), ('espin', 1, 1), ('eradius', 0, 1), ('e_id', 1, 1), ('cs_re', 0, 1), ('cs_im', 0, 1)],
+}
+VEL_PROPS = {'electron': [('eradial_velocity', 0, 1)], 'ellipsoid': [('ang_momentum', 0, 3)],
+             'sphere': [('ang_velocity', 0, 3)]}
+UNIT_STYLES = ['metal', 'real', 'si', 'cgs', 'electron', 'micro', 'nano', 'lj']
+WIRE_KINDS = ['length', 'mass', 'charge', 'dipole', 'density', 'velocity', 'force', 'ang-mom', 'ang-vel', 'volume',
+              'force*length']
+
+
+def _np():
+    import numpy as np
+    return np
+
+
+def F(x):
+    return Fraction(float(x)) if not isinstance(x, (int, Fraction)) else Fraction(x)
+
+
+def fmt_py(ff):
+    return '%.' + ff[1:] + ff[0]
+
+
+def base_styles(style):
+    w = style.split()
+    return w[1:] if w and w[0] == 'hybrid' else w
+
+
+def needed_props(style, with_velocity):
+    out, seen = [], set()
+    for b in base_styles(style):
+        for p in STYLE_PROPS.get(b, []):
+            if p[0] not in seen:
+                seen.add(p[0])
+                out.append(p)
+    if with_velocity:
+        out.append(('velocity', 0, 3))
+        for b in base_styles(style):
+            for p in VEL_PROPS.get(b, []):
+                if p[0] not in seen:
+                    seen.add(p[0])
+                    out.append(p)
+    return out
+
+
+def unit_factors(units):
+    """kind -> exact factor (Fraction) | None, for the kinds atomman's style.unit(units) defines."""
+    import atomman.unitconvert as uc
+    from atomman.lammps import style
+    d = style.unit(units)
+    out = {}
+    for kind in WIRE_KINDS:
+        parts = kind.split('*')
+        if not all(p in d for p in parts):
+            continue
+        strs = [d[p] for p in parts]
+        if any(s is None for s in strs):
+            out[kind] = None
+            continue
+        try:
+            out[kind] = Fraction(float(uc.set_in_units(1.0, '*'.join(strs))))
+        except Exception:  # unit expression atomman cannot evaluate ('None*None*None')
+            continue
+    return out
+
+
+def enc_units(fac):
+    return f'{len(fac)} ' + ' '.join(f'{k} {"none" if v is None else cm.fr(v)}' for k, v in fac.items())
+
+
+def enc_sys(d):
+    np = _np()
+    toks = [('1' if b else '0') for b in d['pbc']]
+    toks += [cm.fr(v) for v in np.asarray(d['vects'], dtype=float).ravel()]
+    toks += [cm.fr(v) for v in d['origin']]
+    toks += [str(d['natypes']), str(len(d['atype']))]
+    toks += [str(int(t)) for t in d['atype']]
+    toks += [cm.fr(v) for v in np.asarray(d['pos'], dtype=float).ravel()]
+    toks.append(str(len(d['props'])))
+    for name, (is_int, shape, arr) in d['props'].items():
+        a = np.asarray(arr)
+        nc = int(np.prod(shape)) if shape else 1
+        toks += [name, '1' if is_int else '0', str(nc)]
+        toks += [cm.fr(v) for v in a.reshape(len(d['atype']), nc).ravel().tolist()]
+    return ' '.join(toks)
+
+
+def build_system(d):
+    import atomman as am
+    np = _np()
+    props = {}
+    for name, (is_int, shape, arr) in d['props'].items():
+        props[name] = np.array(arr, dtype=int if is_int else float).reshape((len(d['atype']),) + tuple(shape))
+    atoms = am.Atoms(atype=np.array(d['atype'], dtype=int), pos=np.array(d['pos'], dtype=float), **props)
+    box = am.Box(vects=np.array(d['vects'], dtype=float), origin=np.array(d['origin'], dtype=float))
+    kw = {}
+    if d.get('symbols') is not None:
+        kw['symbols'] = d['symbols']
+    s = am.System(atoms=atoms, box=box, pbc=list(d['pbc']), **kw)
+    if not (np.array_equal(s.box.vects, np.array(d['vects'], dtype=float))
+            and np.array_equal(s.atoms.pos, np.array(d['pos'], dtype=float))):
+        raise cm.InfraError('System constructor changed the inputs')
+    return s
+
+
+def err_class(e):
+    if isinstance(e, AssertionError):
+        return 'err:assert'
+    if isinstance(e, (KeyError, ValueError, IndexError)):
+        return 'err:value'
+    if isinstance(e, TypeError):
+        return 'err:type'
+    return 'err:' + type(e).__name__
+
+
+def hexs(s):
+    return s.encode('ascii').hex() or '-'
+
+
+def unhex(t):
+    return '' if t == '-' else bytes.fromhex(t).decode('ascii')
+
+
+# ---- generators -------------------------------------------------------------------------
+
+def gen_box(rng, regime, lammps=True):
+    """(vects, origin) as python floats. grid: power-of-two lengths, dyadic tilts |tilt| < length."""
+    if regime == 'grid':
+        lx, ly, lz = (float(rng.choice([1, 2, 4, 8, 16])) for _ in range(3))
+        kind = rng.random()
+        if kind < 0.35:
+            xy = xz = yz = 0.0
+        else:
+            xy = rng.choice([0, 0, 1, -1, 2, -2, 3, -3]) * lx / 8
+            xz = rng.choice([0, 0, 1, -1, 2, -3, 4, -4]) * lx / 8
+            yz = rng.choice([0, 0, 1, -1, 2, -2, 3, 4]) * ly / 8
+        origin = [rng.randint(-64, 64) / 8 if rng.random() < 0.7 else 0.0 for _ in range(3)]
+    else:
+        lx, ly, lz = (rng.uniform(1.5, 25.0) for _ in range(3))
+        kind = rng.random()
+        if kind < 0.3:
+            xy = xz = yz = 0.0
+        elif kind < 0.8:
+            xy, xz, yz = rng.uniform(-0.5, 0.5) * lx, rng.uniform(-0.5, 0.5) * lx, rng.uniform(-0.5, 0.5) * ly
+        elif kind < 0.9:
+            xy, xz, yz = 0.0, 0.0, rng.uniform(-0.5, 0.5) * ly      # only yz tilted
+        else:
+            xy, xz, yz = rng.uniform(-1.4, 1.4) * lx, rng.uniform(-1.4, 1.4) * lx, rng.uniform(-1.4, 1.4) * ly
+        origin = [rng.uniform(-30, 30) if rng.random() < 0.7 else 0.0 for _ in range(3)]
+    vects = [[lx, 0.0, 0.0], [xy, ly, 0.0], [xz, yz, lz]]
+    if not lammps:
+        # a rotated / permuted cell (not LAMMPS-normal)
+        p = rng.choice([[1, 2, 0], [2, 0, 1], [0, 2, 1], [1, 0, 2]])
+        vects = [[vects[i][p[j]] for j in range(3)] for i in range(3)]
+        if rng.random() < 0.5:
+            vects[0] = [-v for v in vects[0]]
+    return vects, origin
+
+
+def gen_positions(rng, regime, vects, origin, n):
+    """positions inside, outside and exactly on faces (grid: exact dyadic relative coordinates)."""
+    V = [[Fraction(v) for v in r] for r in vects]
+    O = [Fraction(v) for v in origin]
+    pos = []
+    mode = rng.choice(['inside', 'mixed', 'mixed', 'faces', 'far'])
+    for _ in range(n):
+        if regime == 'grid':
+            s = []
+            for _i in range(3):
+                m = mode if mode != 'mixed' else rng.choice(['inside', 'faces', 'far', 'inside'])
+                if m == 'inside':
+                    s.append(Fraction(rng.randint(1, 15), 16))
+                elif m == 'faces':
+                    s.append(Fraction(rng.choice([0, 1, 0, 1, -1, 2])))
+                else:
+                    s.append(Fraction(rng.randint(-48, 64), 16))
+            p = [float(sum(s[i] * V[i][j] for i in range(3)) + O[j]) for j in range(3)]
+        else:
+            rngs = {'inside': (0.02, 0.98), 'mixed': (-1.5, 2.5), 'faces': (-0.3, 1.3), 'far': (-4.0, 5.0)}[mode]
+            s = [rng.uniform(*rngs) for _i in range(3)]
+            p = [sum(s[i] * vects[i][j] for i in range(3)) + origin[j] for j in range(3)]
+        pos.append(p)
+    return pos
+
+
+def gen_value(rng, regime, is_int, scale=8.0):
+    if is_int:
+        return rng.randint(-3, 9)
+    if regime == 'grid':
+        return rng.randint(-int(scale * 16), int(scale * 16)) / 16
+    r = rng.random()
+    if r < 0.1:
+        return 0.0
+    if r < 0.2:
+        return rng.uniform(-1, 1) * 10 ** rng.randint(-6, 4)
+    return rng.uniform(-scale, scale)
+
+
+def gen_desc(rng, regime, props=(), lammps=True, nmax=10):
+    n = rng.randint(1, nmax)
+    vects, origin = gen_box(rng, regime, lammps)
+    ntyp = rng.randint(1, 3)
+    atype = [rng.randint(1, ntyp) for _ in range(n)]
+    if rng.random() < 0.15:
+        atype = [t + 1 for t in atype]            # type 1 absent
+    natypes = max(atype)
+    d = {'pbc': [rng.random() < 0.6 for _ in range(3)], 'vects': vects, 'origin': origin, 'atype': atype,
+         'natypes': natypes, 'pos': gen_positions(rng, regime, vects, origin, n), 'props': {}, 'symbols': None,
+         'regime': regime}
+    r = rng.random()
+    if r < 0.3:
+        d['pbc'] = [True, True, True]
+    elif r < 0.4:
+        d['pbc'] = [False, False, False]
+    for name, is_int, nc in props:
+        shape = () if nc == 1 else (nc,)
+        d['props'][name] = (bool(is_int), shape, [[gen_value(rng, regime, is_int) for _ in range(nc)] for _ in range(n)])
+    return d
+
+
+def pick_format(rng, units):
+    """fixed-point formats cannot resolve Angstrom-sized numbers written in metres / centimetres: use %e there."""
+    if units in ('si', 'cgs'):
+        return rng.choice(['e13', 'e8', 'e5', 'e16'])
+    return rng.choice(FORMATS_F)
+
+
+FORMATS_F = ['f13', 'f13', 'f13', 'f5', 'f8', 'f3', 'f16', 'f1', 'e13', 'e8', 'e5']
+
+
+# ---- the real calls ---------------------------------------------------------------------
+
+def real_data(d, style, units, ff, natypes=None, fname=None):
+    """-> ('ok', text, info, system_after) | (errclass,)"""
+    s = build_system(d)
+    try:
+        kw = {}
+        if natypes is not None:
+            kw['natypes'] = natypes
+        if fname is None:
+            text, info = s.dump('atom_data', atom_style=style, units=units, float_format=fmt_py(ff), **kw)
+        else:
+            import os
+            import tempfile
+            tmp = tempfile.mkdtemp(prefix='c07_')
+            cwd = os.getcwd()
+            os.chdir(tmp)
+            try:
+                info = s.dump('atom_data', f=fname, atom_style=style, units=units, float_format=fmt_py(ff), **kw)
+                with open(fname) as fh:
+                    text = fh.read()
+            finally:
+                os.chdir(cwd)
+                import shutil
+                shutil.rmtree(tmp, ignore_errors=True)
+        return ('ok', text, info, s)
+    except Exception as e:  # noqa
+        return (err_class(e), f'{type(e).__name__}: {e}')
+
+
+def real_dump(d, units, ff, prop_names=None):
+    s = build_system(d)
+    try:
+        kw = {}
+        if prop_names is not None:
+            kw['prop_name'] = list(prop_names)
+        return ('ok', s.dump('atom_dump', lammps_units=units, float_format=fmt_py(ff), **kw))
+    except Exception as e:  # noqa
+        return (err_class(e), f'{type(e).__name__}: {e}')
+
+
+def real_poscar(d, ff, coordstyle, scale, header, symbols):
+    s = build_system(d)
+    try:
+        kw = {}
+        if symbols is not None:
+            kw['symbols'] = symbols
+        return ('ok', s.dump('poscar', header=header, coordstyle=coordstyle, box_scale=scale,
+                             float_format=fmt_py(ff), **kw))
+    except Exception as e:  # noqa
+        return (err_class(e), f'{type(e).__name__}: {e}')
+
+
+def real_table(d, ff, cols, units, header):
+    """cols: list of (prop, unitspec, names) ; unitspec 'none' | 'scaled' | kind"""
+    from atomman.lammps import style
+    s = build_system(d)
+    lu = style.unit(units)
+    try:
+        unit = []
+        for prop, us, names in cols:
+            if us == 'none':
+                unit.append(None)
+            elif us == 'scaled':
+                unit.append('scaled')
+            else:
+                unit.append('*'.join(lu[p] for p in us.split('*')))
+        return ('ok', s.dump('table', prop_name=[c[0] for c in cols], table_name=[c[2] for c in cols], unit=unit,
+                             header=header, float_format=fmt_py(ff)))
+    except Exception as e:  # noqa
+        return (err_class(e), f'{type(e).__name__}: {e}')
+
+
+# ---- text comparison --------------------------------------------------------------------
+
+EPS = Fraction(1, 2 ** 52)
+_NUM = re.compile(r'^[+-]?(\d+\.?\d*|\.\d+)([eE][+-]?\d+)?$')
+_NEGZERO = re.compile(r'(?<![\w.])-(0(?:\.0*)?(?:e[+-]\d+)?)(?![\w.])')
+
+
+def canon_zero(text):
+    """`-0.000` -> `0.000` (the sign of a floating zero does not exist in Q)."""
+    return _NEGZERO.sub(lambda m: m.group(1) if float(m.group(1)) == 0 else m.group(0), text)
+
+
+def text_diff(a, b, ff, M):
+    """None if the texts agree: same line/token structure, non-numeric tokens identical, numeric tokens within one
+    unit of the last printed place plus the float error bound 256·eps·max(|value|, M) (M = magnitude of the
+    positions/box the value may have been computed from by cancellation; M None = exact regime, no slack)."""
+    if a == b:
+        return None
+    la, lb = a.split('\n'), b.split('\n')
+    if len(la) != len(lb):
+        return f'{len(la)} lines vs {len(lb)}'
+    n = int(ff[1:])
+    for i, (x, y) in enumerate(zip(la, lb)):
+        if x == y:
+            continue
+        tx, ty = x.split(' '), y.split(' ')
+        if len(tx) != len(ty):
+            return f'line {i + 1}: {x!r} vs {y!r}'
+        for p, q in zip(tx, ty):
+            if p == q:
+                continue
+            if not (_NUM.match(p) and _NUM.match(q)) or ('.' in p) != ('.' in q) and n > 0:
+                return f'line {i + 1}: token {p!r} vs {q!r}'
+            fp, fq = Fraction(p), Fraction(q)
+            if ff[0] == 'f':
+                quantum = Fraction(1, 10 ** n)
+            else:
+                mag = max(abs(fp), abs(fq))
+                e = math.floor(math.log10(float(mag))) if mag else 0
+                quantum = Fraction(10) ** (e - n) * 2
+            allowed = Fraction(0) if M is None else quantum + 256 * EPS * max(abs(fp), abs(fq), M)
+            if abs(fp - fq) > allowed:
+                return f'line {i + 1}: number {p} vs {q} (allowed {float(allowed):.3g})'
+    return None
+
+
+def magnitude(d, lf=None):
+    np = _np()
+    m = max(float(np.abs(np.asarray(d['pos'], dtype=float)).max()), float(np.abs(np.asarray(d['vects'])).max()),
+            float(np.abs(np.asarray(d['origin'])).max()), 1.0)
+    return m / float(lf) if lf else m
+
+
+# ----------------------------------------------------------------------------------------
+# the oracle: independent parsers in Python (LAMMPS read_data / dump manual pages, VASP POSCAR page) and the
+# clauses of the property evaluated on the real output with exact rationals
+# ----------------------------------------------------------------------------------------
+_ID = ('atom-ID', None, 'a_id', 0)
+_TY = ('atom-type', None, 'atype', 0)
+_MOL = ('molecule-ID', None, 'm_id', 0)
+_XYZ = [('x', 'length', 'pos', 0), ('y', 'length', 'pos', 1), ('z', 'length', 'pos', 2)]
+_Q = ('q', 'charge', 'charge', 0)
+_RHO = ('density', 'density', 'density', 0)
+LAYOUT = {
+    'angle': [_ID, _MOL, _TY] + _XYZ, 'atomic': [_ID, _TY] + _XYZ,
+    'body': [_ID, _TY, ('bodyflag', None, 'bflag', 0), ('mass', 'mass', 'mass', 0)] + _XYZ,
+    'bond': [_ID, _MOL, _TY] + _XYZ, 'charge': [_ID, _TY, _Q] + _XYZ,
+    'dipole': [_ID, _TY, _Q] + _XYZ + [('mux', 'dipole', 'mu', 0), ('muy', 'dipole', 'mu', 1), ('muz', 'dipole', 'mu', 2)],
+    'electron': [_ID, _TY, _Q, ('spin', None, 'espin', 0), ('eradius', 'length', 'eradius', 0)] + _XYZ,
+    'ellipsoid': [_ID, _TY, ('ellipsoidflag', None, 'eflag', 0), _RHO] + _XYZ,
+    'full': [_ID, _MOL, _TY, _Q] + _XYZ,
+    'line': [_ID, _MOL, _TY, ('lineflag', None, 'lflag', 0), _RHO] + _XYZ,
+    'meso': [_ID, _TY, ('rho', None, 'rho', 0), ('e', None, 'e', 0), ('cv', None, 'cv', 0)] + _XYZ,
+    'molecular': [_ID, _MOL, _TY] + _XYZ,
+    'peri': [_ID, _TY, ('volume', 'volume', 'volume', 0), _RHO] + _XYZ,
+    'smd': [_ID, _TY, _MOL, ('volume', 'volume', 'volume', 0), ('mass', 'mass', 'mass', 0),
+            ('kernel-radius', 'length', 'kradius', 0), ('contact-radius', 'length', 'cradius', 0)] + _XYZ,
+    'sphere': [_ID, _TY, ('diameter', 'length', 'diameter', 0), _RHO] + _XYZ,
+    'template': [_ID, _MOL, ('template-index', None, 'm_template', 0), ('template-atom', None, 'a_template', 0), _TY] + _XYZ,
+    'tri': [_ID, _MOL, _TY, ('triangleflag', None, 'tflag', 0), _RHO] + _XYZ,
+    'wavepacket': [_ID, _TY, _Q, ('spin', None, 'espin', 0), ('eradius', 'length', 'eradius', 0), ('etag', None, 'e_id', 0),
+                   ('cs_re', None, 'cs_re', 0), ('cs_im', None, 'cs_im', 0)] + _XYZ,
+}
+_V = [('vx', 'velocity', 'velocity', 0), ('vy', 'velocity', 'velocity', 1), ('vz', 'velocity', 'velocity', 2)]
+VEL_LAYOUT = {s: [_ID] + _V for s in LAYOUT}
+VEL_LAYOUT['electron'] = [_ID] + _V + [('ervel', 'velocity', 'eradial_velocity', 0)]
+VEL_LAYOUT['ellipsoid'] = [_ID] + _V + [('l' + c, 'ang-mom', 'ang_momentum', i) for i, c in enumerate('xyz')]
+VEL_LAYOUT['sphere'] = [_ID] + _V + [('w' + c, 'ang-vel', 'ang_velocity', i) for i, c in enumerate('xyz')]
+INT_FIELDS = {'atom-ID', 'atom-type', 'molecule-ID', 'bodyflag', 'ellipsoidflag', 'lineflag', 'triangleflag',
+              'template-index', 'template-atom', 'spin', 'etag'}
+
+
+def layout_of(table, style):
+    w = style.split()
+    if w[0] != 'hybrid':
+        return table[w[0]]
+    out = list(table['atomic'])
+    for sub in w[1:]:
+        for f in table[sub]:
+            if all(f[0] != g[0] for g in out):
+                out.append(f)
+    return out
+
+
+# dump custom attributes (dump manual page): column -> (unit kind | 'scaled' | None, atomman property, component)
+DUMPCOLS = {'id': (None, 'atom_id', 0), 'type': (None, 'atype', 0), 'mol': (None, 'm_id', 0), 'mass': ('mass', 'mass', 0),
+            'q': ('charge', 'charge', 0), 'radius': ('length', 'radius', 0), 'diameter': ('length', 'diameter', 0),
+            'mu': ('dipole', 'mu_mag', 0)}
+for _i, _c in enumerate('xyz'):
+    DUMPCOLS[_c] = ('length', 'pos', _i)
+    DUMPCOLS[_c + 'u'] = ('length', 'pos', _i)
+    DUMPCOLS[_c + 's'] = ('scaled', 'pos', _i)
+    DUMPCOLS[_c + 'su'] = ('scaled', 'pos', _i)
+    DUMPCOLS['i' + _c] = (None, 'boximage', _i)
+    DUMPCOLS['v' + _c] = ('velocity', 'velocity', _i)
+    DUMPCOLS['f' + _c] = ('force', 'force', _i)
+    DUMPCOLS['mu' + _c] = ('dipole', 'mu', _i)
+    DUMPCOLS['omega' + _c] = ('ang-vel', 'ang_velocity', _i)
+    DUMPCOLS['angmom' + _c] = ('ang-mom', 'ang_momentum', _i)
+    DUMPCOLS['tq' + _c] = ('force*length', 'torque', _i)
+
+# LAMMPS `units` manual page, for the kinds per-atom columns use, written as unit expressions
+ORACLE_UNITS = {
+    'lj': {},
+    'real': {'mass': 'g/mol', 'length': 'angstrom', 'time': 'fs', 'velocity': 'angstrom/fs',
+             'force': 'kcal/(mol*angstrom)', 'charge': 'e', 'dipole': 'e*angstrom', 'density': 'g/cm^3'},
+    'metal': {'mass': 'g/mol', 'length': 'angstrom', 'time': 'ps', 'velocity': 'angstrom/ps', 'force': 'eV/angstrom',
+              'charge': 'e', 'dipole': 'e*angstrom', 'density': 'g/cm^3'},
+    'si': {'mass': 'kg', 'length': 'm', 'time': 's', 'velocity': 'm/s', 'force': 'N', 'charge': 'C', 'dipole': 'C*m',
+           'density': 'kg/m^3'},
+    'cgs': {'mass': 'g', 'length': 'cm', 'time': 's', 'velocity': 'cm/s', 'force': 'dyn', 'density': 'g/cm^3'},
+    'electron': {'mass': 'amu', 'length': 'aBohr', 'time': 'fs', 'charge': 'e'},
+    'micro': {'mass': 'pg', 'length': 'um', 'time': 'us', 'velocity': 'um/us', 'force': 'pg*um/us^2',
+              'charge': '1e-12*C', 'dipole': '1e-12*C*um', 'density': 'pg/um^3'},
+    'nano': {'mass': '1e-18*g', 'length': 'nm', 'time': 'ns', 'velocity': 'nm/ns', 'force': '1e-18*g*nm/ns^2',
+             'charge': 'e', 'dipole': 'e*nm', 'density': '1e-18*g/nm^3'},
+}
+_ofac_cache = {}
+
+
+def oracle_factor(units, kind):
+    """Fraction | None (no conversion: lj) | 'undefined' (LAMMPS defines no such unit / not hand-encoded)."""
+    import atomman.unitconvert as uc
+    if kind is None:
+        return None
+    if units == 'lj':
+        return None
+    key = (units, kind)
+    if key in _ofac_cache:
+        return _ofac_cache[key]
+    tab = ORACLE_UNITS[units]
+
+    def base(k):
+        if k not in tab:
+            raise KeyError(k)
+        return Fraction(float(uc.set_in_units(1.0, tab[k])))
+    try:
+        if kind == 'ang-mom':
+            r = base('mass') * base('velocity') * base('length')
+        elif kind == 'ang-vel':
+            r = 1 / base('time')
+        elif kind == 'volume':
+            r = base('length') ** 3
+        elif kind == 'force*length':
+            r = base('force') * base('length')
+        else:
+            r = base(kind)
+    except KeyError:
+        r = 'undefined'
+    _ofac_cache[key] = r
+    return r
+
+
+def inv3(V):
+    (a, b, c), (d, e, f), (g, h, i) = V
+    det = a * (e * i - f * h) - b * (d * i - f * g) + c * (d * h - e * g)
+    if det == 0:
+        raise ZeroDivisionError
+    adj = [[e * i - f * h, c * h - b * i, b * f - c * e],
+           [f * g - d * i, a * i - c * g, c * d - a * f],
+           [d * h - e * g, b * g - a * h, a * e - b * d]]
+    return [[x / det for x in r] for r in adj]
+
+
+def rel_of(p, V, O):
+    """relative coordinates s with p = s·V + O."""
+    Vi = inv3(V)
+    dlt = [p[j] - O[j] for j in range(3)]
+    return [sum(dlt[j] * Vi[j][i] for j in range(3)) for i in range(3)]
+
+
+def cart_of(s, V, O):
+    return [sum(s[i] * V[i][j] for i in range(3)) + O[j] for j in range(3)]
+
+
+def fr_sys(d):
+    V = [[F(v) for v in r] for r in d['vects']]
+    O = [F(v) for v in d['origin']]
+    P = [[F(v) for v in p] for p in d['pos']]
+    return V, O, P
+
+
+def is_lammps_norm(V):
+    return V[0][1] == 0 and V[0][2] == 0 and V[1][2] == 0 and V[0][0] > 0 and V[1][1] > 0 and V[2][2] > 0
+
+
+def near_discontinuity(d, margin=Fraction(1, 10 ** 8)):
+    """does the exact arithmetic place an atom within `margin` of a wrap decision (periodic face / the
+    `min <= 0`, `max >= 1` tests)? those cases are exempt from float-vs-exact comparison."""
+    V, O, P = fr_sys(d)
+    S = [rel_of(p, V, O) for p in P]
+    for i in range(3):
+        col = [s[i] for s in S]
+        if d['pbc'][i]:
+            if any(abs(x - round(x)) < margin and x != round(x) for x in col):
+                return True
+        else:
+            if 0 < abs(min(col)) < margin or 0 < abs(max(col) - 1) < margin:
+                return True
+    return False
+
+
+def quantum_of(ff, v):
+    n = int(ff[1:])
+    if ff[0] == 'f':
+        return Fraction(1, 10 ** n)
+    if v == 0:
+        return Fraction(0)
+    e = math.floor(math.log10(abs(float(v)))) if abs(v) > Fraction(1, 10 ** 300) else -300
+    return Fraction(10) ** (e - n) * 2
+
+
+class Checker:
+    """collects the first few failed clauses of one written file."""
+
+    def __init__(self, ff, M):
+        self.ff = ff
+        self.M = Fraction(M)
+        self.fails = []
+
+    def tol(self, v, k=1):
+        # k == 1: a number compared directly with what was printed; k > 1: a quantity derived from several printed
+        # numbers (for %e their quantum is relative to the largest magnitude involved)
+        base = v if k == 1 else max(abs(v), self.M)
+        return k * quantum_of(self.ff, base) + 256 * EPS * (self.M + abs(v))
+
+    def num(self, what, got, want, k=1):
+        if abs(got - want) > self.tol(want, k):
+            self.fail(what, f'{what}: file says {float(got)!r}, the system has {float(want)!r} '
+                            f'(allowed difference {float(self.tol(want, k)):.3g})')
+
+    def fail(self, key, msg):
+        if len(self.fails) < 4:
+            self.fails.append((key.split('[')[0], msg))
+
+
+_INT = re.compile(r'^[+-]?\d+$')
+_FLT = re.compile(r'^[+-]?(\d+\.?\d*|\.\d+)([eE][+-]?\d+)?$')
+
+
+def p_int(t):
+    if not _INT.match(t):
+        raise ValueError(f'{t!r} is not an integer')
+    return int(t)
+
+
+def p_num(t):
+    if not _FLT.match(t):
+        raise ValueError(f'{t!r} is not a number')
+    return Fraction(t)
+
+
+def py_parse_data(text, style):
+    """LAMMPS read_data rules. Raises ValueError on a malformed file."""
+    lines = text.split('\n')
+    if lines and lines[-1] == '':
+        lines.pop()
+    lines = lines[1:]                       # title line
+    hdr = {}
+    i = 0
+    while i < len(lines):
+        t = lines[i].split('#')[0].split()
+        if not t:
+            i += 1
+            continue
+        if len(t) == 2 and t[1] == 'atoms':
+            hdr['natoms'] = p_int(t[0])
+        elif len(t) == 3 and t[1:] == ['atom', 'types']:
+            hdr['ntypes'] = p_int(t[0])
+        elif len(t) == 4 and t[2:] in (['xlo', 'xhi'], ['ylo', 'yhi'], ['zlo', 'zhi']):
+            hdr[t[2][0]] = (p_num(t[0]), p_num(t[1]))
+        elif len(t) == 6 and t[3:] == ['xy', 'xz', 'yz']:
+            hdr['tilt'] = tuple(p_num(x) for x in t[:3])
+        else:
+            break
+        i += 1
+    for k in ('natoms', 'ntypes', 'x', 'y', 'z'):
+        if k not in hdr:
+            raise ValueError(f'header lacks {k}')
+    n = hdr['natoms']
+    sections = {}
+    hint = None
+    while i < len(lines):
+        t = lines[i].split('#')[0].split()
+        if not t:
+            i += 1
+            continue
+        name = ' '.join(t)
+        if name not in ('Atoms', 'Velocities', 'Masses'):
+            raise ValueError(f'unknown section {name!r}')
+        if name in sections:
+            raise ValueError(f'section {name} twice')
+        if name == 'Atoms' and '#' in lines[i]:
+            hint = lines[i].split('#', 1)[1].strip()
+        cnt = hdr['ntypes'] if name == 'Masses' else n
+        if i + 1 >= len(lines) or lines[i + 1].split('#')[0].split():
+            raise ValueError(f'no blank line after {name}')
+        body = [l.split('#')[0].split() for l in lines[i + 2:i + 2 + cnt]]
+        if len(body) != cnt or any(not b for b in body):
+            raise ValueError(f'section {name} has fewer than {cnt} lines')
+        sections[name] = body
+        i += 2 + cnt
+    if 'Atoms' not in sections:
+        raise ValueError('no Atoms section')
+    lay = layout_of(LAYOUT, style)
+    atoms = []
+    for row in sections['Atoms']:
+        if len(row) not in (len(lay), len(lay) + 3):
+            raise ValueError(f'Atoms line has {len(row)} words, atom_style {style} needs {len(lay)} (+3 image flags)')
+        vals = [Fraction(p_int(t)) if f[0] in INT_FIELDS else p_num(t) for f, t in zip(lay, row)]
+        img = [p_int(t) for t in row[len(lay):]] or [0, 0, 0]
+        atoms.append({'vals': vals, 'image': img})
+    vel = None
+    if 'Velocities' in sections:
+        vl = layout_of(VEL_LAYOUT, style)
+        vel = []
+        for row in sections['Velocities']:
+            if len(row) != len(vl):
+                raise ValueError(f'Velocities line has {len(row)} words, atom_style {style} needs {len(vl)}')
+            vel.append([Fraction(p_int(row[0]))] + [p_num(t) for t in row[1:]])
+    tilt = hdr.get('tilt', (Fraction(0),) * 3)
+    return {'natoms': n, 'ntypes': hdr['ntypes'], 'hilo': list(hdr['x'] + hdr['y'] + hdr['z'] + tuple(tilt)),
+            'has_tilt': 'tilt' in hdr, 'hint': hint, 'atoms': atoms, 'vel': vel}
+
+
+def prop_value(d, prop, comp, k):
+    """value of property `prop` component `comp` of atom k as a Fraction (pos/atype/a_id included)."""
+    if prop in ('a_id',):
+        return Fraction(k + 1)
+    if prop == 'atom_id':
+        if 'atom_id' in d['props']:
+            return F(d['props']['atom_id'][2][k][0])
+        return Fraction(k + 1)
+    if prop == 'atype':
+        return Fraction(d['atype'][k])
+    if prop == 'pos':
+        return F(d['pos'][k][comp])
+    if prop not in d['props']:
+        raise KeyError(prop)
+    return F(d['props'][prop][2][k][comp])
+
+
+def check_data(d, style, units, ff, natypes, parsed, info=None, fname=None):
+    """clauses of the property for a data file; `parsed` is the result of an independent parser."""
+    V, O, P = fr_sys(d)
+    lf = oracle_factor(units, 'length')
+    if lf == 'undefined':
+        return []
+    lf = lf or Fraction(1)
+    ck = Checker(ff, magnitude(d, lf))
+    n = len(P)
+    if parsed['natoms'] != n:
+        ck.fail('header-atoms', f'header says {parsed["natoms"]} atoms, the system has {n}')
+    if len(parsed['atoms']) != parsed['natoms']:
+        ck.fail('count', f'header says {parsed["natoms"]} atoms, Atoms section has {len(parsed["atoms"])} lines')
+    if parsed['ntypes'] != natypes:
+        ck.fail('header-types', f'header says {parsed["ntypes"]} atom types, expected {natypes}')
+    if parsed['hint'] is not None and parsed['hint'] != style:
+        ck.fail('style-hint', f'Atoms section comment says {parsed["hint"]!r}, atom_style is {style!r}')
+    xlo, xhi, ylo, yhi, zlo, zhi, xy, xz, yz = parsed['hilo']
+    if not (xlo < xhi and ylo < yhi and zlo < zhi):
+        ck.fail('lo<hi', f'bounds are not lo < hi: {[float(v) for v in parsed["hilo"][:6]]}')
+        return ck.fails
+    W = [[xhi - xlo, Fraction(0), Fraction(0)], [xy, yhi - ylo, Fraction(0)], [xz, yz, zhi - zlo]]
+    WO = [xlo, ylo, zlo]
+    lay = layout_of(LAYOUT, style)
+    ids = []
+    # cell: periodic directions are unchanged; non-periodic ones keep their direction
+    for i in range(3):
+        want = [V[i][j] / lf for j in range(3)]
+        if d['pbc'][i]:
+            for j in range(3):
+                ck.num(f'cell[{i}][{j}]', W[i][j], want[j], 2)
+        else:
+            cr = [W[i][1] * want[2] - W[i][2] * want[1], W[i][2] * want[0] - W[i][0] * want[2],
+                  W[i][0] * want[1] - W[i][1] * want[0]]
+            big = max(abs(x) for x in W[i]) * max(abs(x) for x in want)
+            if any(abs(c) > ck.tol(big, 4) * max(big, 1) for c in cr) or sum(a * b for a, b in zip(W[i], want)) <= 0:
+                ck.fail('cell-direction', f'cell vector {i} {[float(x) for x in W[i]]} is not along the system\'s '
+                                          f'{[float(x) for x in want]}')
+    if not parsed['has_tilt'] and any(V[i][j] != 0 for i, j in ((1, 0), (2, 0), (2, 1))):
+        ck.fail('tilt-line', 'the system is triclinic but the file has no "xy xz yz" line')
+    so = rel_of([WO[j] * lf for j in range(3)], V, O)
+    for i in range(3):
+        if d['pbc'][i] and abs(so[i]) > ck.tol(Fraction(1), 4) / max(abs(V[i][i]) / lf, Fraction(1, 10 ** 6)) + Fraction(1, 10 ** 9):
+            ck.fail('origin', f'written origin is shifted along periodic direction {i} by {float(so[i])} cell vectors')
+    for k, a in enumerate(parsed['atoms'][:n]):
+        fv = {f[0]: v for f, v in zip(lay, a['vals'])}
+        ids.append(fv['atom-ID'])
+        if fv['atom-type'] != d['atype'][k]:
+            ck.fail('type', f'atom {k + 1}: type {fv["atom-type"]} in the file, {d["atype"][k]} in the system')
+        img = a['image']
+        for i in range(3):
+            if not d['pbc'][i] and img[i] != 0:
+                ck.fail('image-nonperiodic', f'atom {k + 1}: image flag {img[i]} along non-periodic direction {i}')
+        p = [fv['x'], fv['y'], fv['z']]
+        unw = [p[j] + sum(img[i] * W[i][j] for i in range(3)) for j in range(3)]
+        imax = max(1, max(abs(x) for x in img))
+        for j in range(3):
+            ck.num(f'pos[{k}][{j}]', unw[j], P[k][j] / lf, 2 + 2 * imax)
+        lam = rel_of(p, W, WO)
+        for i in range(3):
+            slack = ck.tol(Fraction(1), 4) / min(W[0][0], W[1][1], W[2][2]) * 4
+            if lam[i] < -slack or lam[i] > 1 + slack:
+                ck.fail('inside', f'atom {k + 1} lies outside the written bounds: relative coordinate {float(lam[i])!r} '
+                                  f'along direction {i}')
+        for f, v in zip(lay, a['vals']):
+            if f[0] in ('atom-ID', 'atom-type', 'x', 'y', 'z'):
+                continue
+            fac = oracle_factor(units, f[1])
+            if fac == 'undefined':
+                continue
+            try:
+                want = prop_value(d, f[2], f[3], k)
+            except KeyError:
+                continue
+            ck.num(f'{f[0]}[{k}]', v, want / fac if fac else want)
+    if sorted(ids) != [Fraction(i) for i in range(1, len(ids) + 1)]:
+        ck.fail('ids', f'atom ids are not 1..N: {[int(i) for i in ids][:12]}')
+    has_vel = 'velocity' in d['props']
+    if has_vel != (parsed['vel'] is not None):
+        ck.fail('velocities-section', f'system has velocities: {has_vel}; file has a Velocities section: {not has_vel}')
+    if parsed['vel'] is not None and has_vel:
+        vl = layout_of(VEL_LAYOUT, style)
+        if sorted(r[0] for r in parsed['vel']) != [Fraction(i) for i in range(1, n + 1)]:
+            ck.fail('velocity-ids', 'Velocities ids are not 1..N')
+        for r in parsed['vel']:
+            k = int(r[0]) - 1
+            if not 0 <= k < n:
+                continue
+            for f, v in zip(vl[1:], r[1:]):
+                fac = oracle_factor(units, f[1])
+                if fac == 'undefined':
+                    continue
+                try:
+                    want = prop_value(d, f[2], f[3], k)
+                except KeyError:
+                    continue
+                ck.num(f'{f[0]}[{k}]', v, want / fac if fac else want)
+    if info is not None:
+        il = [l.split() for l in info.split('\n')]
+        if ['units', units] not in il:
+            ck.fail('info-units', f'the command snippet does not say "units {units}": {info!r}')
+        if ['atom_style'] + style.split() not in il:
+            ck.fail('info-atom_style', f'the command snippet does not say "atom_style {style}": {info!r}')
+        bl = [l for l in il if l and l[0] == 'boundary']
+        if len(bl) != 1 or len(bl[0]) != 4 or any((b == 'p') != bool(p) for b, p in zip(bl[0][1:], d['pbc'])) \
+                or any(b not in ('p', 'm', 's', 'f') for b in bl[0][1:]):
+            ck.fail('info-boundary', f'boundary line {bl} does not match pbc {d["pbc"]}')
+        rd = [l for l in il if l and l[0] == 'read_data']
+        if fname is not None and rd != [['read_data', fname]]:
+            ck.fail('info-read_data', f'read_data line {rd} does not name {fname}')
+    return ck.fails
+
+
+def py_parse_dump(text):
+    lines = text.split('\n')
+    if lines and lines[-1] == '':
+        lines.pop()
+    L = [l.split() for l in lines]
+    if len(L) < 9 or L[0] != ['ITEM:', 'TIMESTEP'] or L[2] != ['ITEM:', 'NUMBER', 'OF', 'ATOMS'] \
+            or L[4][:3] != ['ITEM:', 'BOX', 'BOUNDS'] or L[8][:2] != ['ITEM:', 'ATOMS']:
+        raise ValueError('ITEM lines missing or out of order')
+    ts = p_int(L[1][0])
+    n = p_int(L[3][0])
+    b = L[4][3:]
+    tri = b[:3] == ['xy', 'xz', 'yz']
+    if tri:
+        b = b[3:]
+    if len(b) != 3 or any(len(x) != 2 or any(c not in 'pfsm' for c in x) for x in b):
+        raise ValueError(f'boundary flags {b}')
+    rows3 = [[p_num(t) for t in L[5 + i]] for i in range(3)]
+    if any(len(r) != (3 if tri else 2) for r in rows3):
+        raise ValueError('BOX BOUNDS lines have the wrong number of values')
+    tilt = [rows3[0][2], rows3[1][2], rows3[2][2]] if tri else [Fraction(0)] * 3
+    xy, xz, yz = tilt
+    hilo = [rows3[0][0] - min(0, xy, xz, xy + xz), rows3[0][1] - max(0, xy, xz, xy + xz),
+            rows3[1][0] - min(0, yz), rows3[1][1] - max(0, yz), rows3[2][0], rows3[2][1], xy, xz, yz]
+    cols = L[8][2:]
+    body = L[9:9 + n]
+    if len(body) != n or len(L) != 9 + n:
+        raise ValueError(f'NUMBER OF ATOMS is {n}, the ATOMS item has {len(L) - 9} lines')
+    rows = []
+    for r in body:
+        if len(r) != len(cols):
+            raise ValueError('ATOMS line length differs from the column list')
+        rows.append(r)
+    return {'timestep': ts, 'natoms': n, 'tri': tri, 'boundary': b, 'hilo': hilo, 'cols': cols, 'rows': rows}
+
+
+def check_dump(d, units, ff, parsed):
+    V, O, P = fr_sys(d)
+    lf = oracle_factor(units, 'length')
+    if lf == 'undefined':
+        return []
+    lf = lf or Fraction(1)
+    ck = Checker(ff, magnitude(d, lf))
+    n = len(P)
+    if parsed['natoms'] != n:
+        ck.fail('count', f'NUMBER OF ATOMS {parsed["natoms"]}, the system has {n}')
+    h = parsed['hilo']
+    want = [O[0], O[0] + V[0][0], O[1], O[1] + V[1][1], O[2], O[2] + V[2][2], V[1][0], V[2][0], V[2][1]]
+    names = ['xlo', 'xhi', 'ylo', 'yhi', 'zlo', 'zhi', 'xy', 'xz', 'yz']
+    for nm, g, w in zip(names, h, want):
+        ck.num('box:' + nm, g, w / lf, 3)
+    if not (h[0] < h[1] and h[2] < h[3] and h[4] < h[5]):
+        ck.fail('lo<hi', 'bounds are not lo < hi after removing the tilt extents')
+    if parsed['tri'] != any(w != 0 for w in want[6:]):
+        ck.fail('triclinic-label', f'"xy xz yz" label present: {parsed["tri"]}, system tilts {[float(w) for w in want[6:]]}')
+    for b, p in zip(parsed['boundary'], d['pbc']):
+        if (b == 'pp') != bool(p):
+            ck.fail('boundary', f'boundary flags {parsed["boundary"]} vs pbc {d["pbc"]}')
+    W = [[h[1] - h[0], 0, 0], [h[6], h[3] - h[2], 0], [h[7], h[8], h[5] - h[4]]]
+    WO = [h[0], h[2], h[4]]
+    cols = parsed['cols']
+    ids = []
+    for k, row in enumerate(parsed['rows'][:n]):
+        for c, t in zip(cols, row):
+            if c not in DUMPCOLS:
+                continue
+            kind, prop, comp = DUMPCOLS[c]
+            if c in ('id', 'type', 'mol', 'ix', 'iy', 'iz'):
+                if not _INT.match(t):
+                    ck.fail('int:' + c, f'column {c} must be an integer, the file has {t!r}')
+                    continue
+            v = p_num(t)
+            if c == 'id':
+                ids.append(v)
+            try:
+                want = prop_value(d, prop, comp, k)
+            except KeyError:
+                continue
+            if kind == 'scaled':
+                continue
+            fac = oracle_factor(units, kind)
+            if fac == 'undefined':
+                continue
+            ck.num(f'{c}[{k}]', v, want / fac if fac else want)
+        for suf in ('s', 'su'):
+            names3 = [a + suf for a in 'xyz']
+            if all(x in cols for x in names3):
+                s = [p_num(row[cols.index(x)]) for x in names3]
+                p = cart_of(s, W, WO)
+                kk = 3 + 3 * math.ceil(max(abs(x) for r in W for x in r))
+                for j in range(3):
+                    ck.num(f'unscaled {names3[j]}[{k}]', p[j], P[k][j] / lf, kk)
+    if 'id' in cols:
+        if len(set(ids)) != len(ids):
+            ck.fail('ids', f'atom ids are not unique: {[int(i) for i in ids][:12]}')
+        if 'atom_id' not in d['props'] and sorted(ids) != [Fraction(i) for i in range(1, len(ids) + 1)]:
+            ck.fail('ids', f'atom ids are not 1..N: {[int(i) for i in ids][:12]}')
+    return ck.fails
+
+
+def py_parse_poscar(text):
+    lines = text.split('\n')
+    if len(lines) < 8:
+        raise ValueError('fewer than 8 lines')
+    sc = lines[1].split()
+    if len(sc) != 1:
+        raise ValueError('scale line')
+    scale = p_num(sc[0])
+    if scale <= 0:
+        raise ValueError('non-positive scale')
+    lat = [[p_num(t) * scale for t in lines[2 + i].split()[:3]] for i in range(3)]
+    if any(len(r) != 3 for r in lat):
+        raise ValueError('lattice line')
+    i = 5
+    t = lines[i].split()
+    symbols = None
+    if t and not _INT.match(t[0]):
+        symbols = t
+        i += 1
+        t = lines[i].split()
+    counts = [p_int(x) for x in t]
+    if not counts or any(c < 0 for c in counts):
+        raise ValueError('counts line')
+    i += 1
+    if lines[i].strip()[:1] in ('S', 's'):
+        i += 1
+    mode = lines[i].strip()
+    cart = mode[:1] in ('C', 'c', 'K', 'k')
+    i += 1
+    n = sum(counts)
+    body = lines[i:i + n]
+    if len(body) != n:
+        raise ValueError(f'counts sum to {n}, {len(body)} coordinate lines')
+    raw = [[p_num(x) for x in l.split()[:3]] for l in body]
+    if any(len(r) != 3 for r in raw):
+        raise ValueError('coordinate line')
+    return {'scale': scale, 'lattice': lat, 'symbols': symbols, 'counts': counts, 'cart': cart, 'raw': raw}
+
+
+def check_poscar(d, ff, coordstyle, scale, symbols, parsed):
+    V, O, P = fr_sys(d)
+    ck = Checker(ff, magnitude(d))
+    sc = F(scale)
+    # %e prints relative precision: compare relative to the written (unscaled) magnitude
+    want_cart = coordstyle[:1] in 'cCkK'
+    if parsed['cart'] != want_cart:
+        ck.fail('mode', f'coordinate mode line {coordstyle!r} read as cartesian={parsed["cart"]}')
+    ck.num('scale', parsed['scale'], sc)
+
+    def scaled_tol(want):
+        # a written number w = want/scale times the written scale: both carry their own print quantum
+        w = want / sc
+        return 2 * (quantum_of(ff, max(abs(w), ck.M / sc) if ff[0] == 'e' else w) * sc + abs(w) * quantum_of(ff, sc)) \
+            + 256 * EPS * (ck.M + abs(want))
+    for i in range(3):
+        for j in range(3):
+            got = parsed['lattice'][i][j]
+            if abs(got - V[i][j]) > scaled_tol(V[i][j]):
+                ck.fail('lattice', f'lattice[{i}][{j}]: scale x written row gives {float(got)!r}, the system has '
+                                   f'{float(V[i][j])!r} (allowed difference {float(scaled_tol(V[i][j])):.3g})')
+    ntyp = d['natypes']
+    want_counts = [sum(1 for t in d['atype'] if t == a) for a in range(1, max(d['atype']) + 1)]
+    if parsed['counts'] != want_counts:
+        ck.fail('counts', f'per-type counts {parsed["counts"]}, the system has {want_counts}')
+    if symbols is not None and parsed['symbols'] != list(symbols):
+        ck.fail('symbols', f'symbols line {parsed["symbols"]} vs {list(symbols)}')
+    order = [k for a in range(1, ntyp + 1) for k in range(len(P)) if d['atype'][k] == a]
+    if len(parsed['raw']) != len(order):
+        ck.fail('count', f'{len(parsed["raw"])} coordinate lines for {len(order)} atoms')
+        return ck.fails
+    for r, k in zip(parsed['raw'], order):
+        if parsed['cart']:
+            for j in range(3):
+                got = r[j] * parsed['scale']
+                if abs(got - P[k][j]) > scaled_tol(P[k][j]):
+                    ck.fail('cartesian', f'cartesian[{k}][{j}]: scale x written coordinate gives {float(got)!r}, the atom '
+                                         f'is at {float(P[k][j])!r} (allowed difference {float(scaled_tol(P[k][j])):.3g})')
+        else:
+            s = rel_of(P[k], V, O)
+            for j in range(3):
+                ck.num(f'direct[{k}][{j}]', r[j], s[j], 2)
+    return ck.fails
+
+
+# ----------------------------------------------------------------------------------------
+# case streams (shared by correspond and search; everything derives from the rng passed in)
+# ----------------------------------------------------------------------------------------
+ALL_STYLES = sorted(STYLE_PROPS)
+HYBRIDS = ['hybrid charge', 'hybrid sphere', 'hybrid charge sphere', 'hybrid molecular charge', 'hybrid dipole sphere',
+           'hybrid ellipsoid charge']
+
+
+def gen_data_case(rng, i):
+    regime = 'grid' if i % 2 == 0 else 'generic'
+    r = rng.random()
+    if r < 0.45:
+        style = 'atomic'
+    elif r < 0.85:
+        style = rng.choice(ALL_STYLES)
+    else:
+        style = rng.choice(HYBRIDS)
+    units = 'metal' if rng.random() < 0.5 else rng.choice(UNIT_STYLES)
+    with_vel = rng.random() < 0.4
+    lammps = rng.random() > 0.04
+    d = gen_desc(rng, regime, needed_props(style, with_vel), lammps=lammps)
+    ff = pick_format(rng, units)
+    natypes = None
+    if rng.random() < 0.2:
+        natypes = d['natypes'] + rng.randint(1, 2)
+    fname = 'atom.dat' if rng.random() < 0.08 else None
+    if rng.random() < 0.08 and STYLE_PROPS.get(style.split()[0]):
+        # drop a required property: both sides must refuse
+        drop = needed_props(style, False)[0][0]
+        d['props'].pop(drop, None)
+    return {'kind': 'data', 'd': d, 'style': style, 'units': units, 'ff': ff, 'natypes': natypes, 'fname': fname}
+
+
+DUMP_EXTRA = [('velocity', 0, 3), ('force', 0, 3), ('charge', 0, 1), ('mass', 0, 1), ('m_id', 1, 1), ('radius', 0, 1),
+              ('mu', 0, 3), ('ang_velocity', 0, 3), ('ang_momentum', 0, 3), ('torque', 0, 3), ('diameter', 0, 1),
+              ('stress', 0, 9), ('myint', 1, 1), ('myvec', 0, 3), ('mu_mag', 0, 1)]
+
+
+def gen_dump_case(rng, i):
+    regime = 'grid' if i % 2 == 0 else 'generic'
+    units = 'metal' if rng.random() < 0.5 else rng.choice(UNIT_STYLES)
+    props = [p for p in DUMP_EXTRA if rng.random() < 0.18 and not (units == 'lj' and p[0] == 'torque')]
+    d = gen_desc(rng, regime, props, lammps=rng.random() > 0.04)
+    if 'stress' in d['props']:
+        is_int, shape, arr = d['props']['stress']
+        d['props']['stress'] = (is_int, (3, 3), arr)
+    n = len(d['atype'])
+    if rng.random() < 0.25:
+        ids = rng.sample(range(1, 4 * n + 2), n)
+        if rng.random() < 0.1 and n > 1:
+            ids[0] = ids[1]                       # duplicate ids: both sides refuse
+        d['props'] = dict([('atom_id', (True, (), [[v] for v in ids]))] + list(d['props'].items()))
+    ff = pick_format(rng, units)
+    prop_names = None
+    if rng.random() < 0.45:
+        # explicit column selection with scaled / unwrapped position variants
+        prop_names = ['atom_id', 'atype'] + rng.sample(['pos', 'spos', 'upos', 'supos'], rng.randint(1, 3)) \
+            + [p for p in d['props'] if p != 'atom_id' and rng.random() < 0.7]
+    return {'kind': 'dump', 'd': d, 'units': units, 'ff': ff, 'prop_names': prop_names}
+
+
+def gen_poscar_case(rng, i):
+    regime = 'grid' if i % 2 == 0 else 'generic'
+    d = gen_desc(rng, regime, [], lammps=rng.random() < 0.7)
+    coordstyle = rng.choice(['direct', 'cartesian', 'Direct', 'Cartesian', 'cart', 'k', 'D'])
+    if regime == 'grid':
+        scale = rng.choice([1.0, 2.0, 0.5, 4.0, 0.25, 1.0])
+    else:
+        scale = rng.choice([1.0, rng.uniform(0.3, 6.0), 3.615, 0.1])
+    symbols = None
+    if rng.random() < 0.5:
+        symbols = rng.sample(['Al', 'Cu', 'Fe', 'Ni', 'O'], d['natypes'])
+    header = rng.choice(['', 'test cell', 'x'])
+    ff = rng.choice(['e13', 'e13', 'e8', 'e16', 'f13', 'f8', 'e5'])
+    return {'kind': 'poscar', 'd': d, 'coordstyle': coordstyle, 'scale': scale, 'symbols': symbols, 'header': header,
+            'ff': ff}
+
+
+def gen_table_case(rng, i):
+    regime = 'grid' if i % 2 == 0 else 'generic'
+    units = rng.choice(['metal', 'real', 'si', 'nano'])
+    props = [p for p in [('velocity', 0, 3), ('charge', 0, 1), ('m_id', 1, 1), ('force', 0, 3)] if rng.random() < 0.5]
+    d = gen_desc(rng, regime, props)
+    cols = [('atype', 'none', ['type'])]
+    cols.append(('pos', rng.choice(['length', 'scaled', 'none']), ['x', 'y', 'z']))
+    kinds = {'velocity': 'velocity', 'charge': 'charge', 'force': 'force'}
+    for name, is_int, nc in props:
+        us = kinds.get(name, 'none') if rng.random() < 0.7 else 'none'
+        cols.append((name, us, [name] if nc == 1 else [f'{name}[{k}]' for k in range(nc)]))
+    if rng.random() < 0.5:
+        cols.insert(0, ('a_id', 'none', ['id']))
+    return {'kind': 'table', 'd': d, 'units': units, 'ff': pick_format(rng, units), 'cols': cols,
+            'header': rng.random() < 0.5}
+
+
+def dump_props_for_wire(c):
+    """property names and shapes in column order, as atom_dump.dump chooses them."""
+    d = c['d']
+    if c['prop_names'] is not None:
+        names = list(c['prop_names'])
+    else:
+        names = ['atom_id'] + [p for p in (['atype', 'pos'] + list(d['props'])) if p != 'atom_id']
+    out = []
+    for nm in names:
+        if nm in ('atom_id', 'atype'):
+            shape = ()
+        elif nm in ('pos', 'spos', 'upos', 'supos'):
+            shape = (3,)
+        else:
+            shape = tuple(d['props'][nm][1])
+        out.append((nm, shape))
+    return out
+
+
+def model_line(c):
+    d = c['d']
+    if c['kind'] == 'data':
+        dd = dict(d)
+        if c['natypes'] is not None:
+            dd['natypes'] = c['natypes']
+        return (f"data {c['ff']} {c['style'].replace(' ', '+')} {c['units']} {c['fname'] or '-'} {enc_sys(dd)} "
+                f"{enc_units(unit_factors(c['units']))}")
+    if c['kind'] == 'dump':
+        pw = dump_props_for_wire(c)
+        ps = ' '.join(f'{nm} {len(sh)}' + ''.join(f' {x}' for x in sh) for nm, sh in pw)
+        return f"dump {c['ff']} 0 {len(pw)} {ps} {enc_sys(d)} {enc_units(unit_factors(c['units']))}"
+    if c['kind'] == 'poscar':
+        hw = c['header'].split()
+        sy = c['symbols']
+        return (f"poscar {c['ff']} {c['coordstyle']} {cm.fr(c['scale'])} {len(hw)} {' '.join(hw)} "
+                f"{'1' if sy is not None else '0'} {len(sy or [])} {' '.join(sy or [])} {enc_sys(d)}").replace('  ', ' ')
+    if c['kind'] == 'table':
+        cs = ' '.join(f'{p} {us} {len(nm)} {" ".join(nm)}' for p, us, nm in c['cols'])
+        return (f"table {c['ff']} {'1' if c['header'] else '0'} {len(c['cols'])} {cs} {enc_sys(d)} "
+                f"{enc_units(unit_factors(c['units']))}")
+    raise ValueError(c['kind'])
+
+
+def real_call(c):
+    if c['kind'] == 'data':
+        return real_data(c['d'], c['style'], c['units'], c['ff'], c['natypes'], c['fname'])
+    if c['kind'] == 'dump':
+        return real_dump(c['d'], c['units'], c['ff'], c['prop_names'])
+    if c['kind'] == 'poscar':
+        return real_poscar(c['d'], c['ff'], c['coordstyle'], c['scale'], c['header'], c['symbols'])
+    return real_table(c['d'], c['ff'], c['cols'], c['units'], c['header'])
+
+
+def case_sample(c):
+    d = c['d']
+    s = {k: v for k, v in c.items() if k not in ('d',)}
+    s.update({'natoms': len(d['atype']), 'pbc': d['pbc'], 'regime': d['regime'], 'vects': d['vects'],
+              'origin': d['origin'], 'props': list(d['props'])})
+    return s
+
+
+def case_replay(c):
+    d = c['d']
+    r = {k: v for k, v in c.items() if k != 'd'}
+    r['d'] = {k: (v if k != 'props' else {n: [p[0], list(p[1]), p[2]] for n, p in v.items()}) for k, v in d.items()}
+    return r
+
+
+def case_from_replay(r):
+    c = dict(r)
+    d = dict(r['d'])
+    d['props'] = {n: (bool(p[0]), tuple(p[1]), p[2]) for n, p in d['props'].items()}
+    c['d'] = d
+    if c.get('symbols') is not None:
+        c['symbols'] = list(c['symbols'])
+    if c.get('cols') is not None:
+        c['cols'] = [tuple(x) for x in c['cols']]
+    return c
+
+
+def exact_expected(c):
+    """is the float arithmetic of the real code exact on this case, so that the texts must be identical?"""
+    d = c['d']
+    if d['regime'] != 'grid':
+        return False
+    fac = unit_factors(c.get('units', 'metal')) if c['kind'] != 'poscar' else {}
+    if c['kind'] == 'data':
+        V, O, P = fr_sys(d)
+        if not is_lammps_norm(V):
+            return True
+        S = [rel_of(p, V, O) for p in P]
+        for i in range(3):
+            if not d['pbc'][i] and (min(s[i] for s in S) <= 0 or max(s[i] for s in S) >= 1):
+                return False                       # the 0.001 margin is not a dyadic number
+        used = {f[1] for f in layout_of(LAYOUT, c['style']) if f[1]}
+        if 'velocity' in d['props']:
+            used |= {f[1] for f in layout_of(VEL_LAYOUT, c['style']) if f[1]}
+        return all(fac.get(k, 1) in (None, 1) for k in used)
+    if c['kind'] == 'dump':
+        used = {'length'}
+        for nm, _sh in dump_props_for_wire(c):
+            for col, (kind, prop, _c) in DUMPCOLS.items():
+                if prop == nm and kind and kind != 'scaled':
+                    used.add(kind)
+        return all(fac.get(k, 1) in (None, 1) for k in used)
+    if c['kind'] == 'table':
+        used = {us for _p, us, _n in c['cols'] if us not in ('none', 'scaled')}
+        return all(fac.get(k, 1) in (None, 1) for k in used)
+    return True
+
+
+def written_magnitude(c):
+    d = c['d']
+    if c['kind'] == 'poscar':
+        return Fraction(magnitude(d)) / F(c['scale'])
+    f = unit_factors(c['units']).get('length')
+    return Fraction(magnitude(d, f if f else None))
+
+
+# ----------------------------------------------------------------------------------------
+# correspondence
+# ----------------------------------------------------------------------------------------
+
+def correspond_fmt(ctx, rng, N):
+    import struct
+    vals = [0.0, 0.5, 1.5, 2.5, -0.5, 0.125, 1e22, 1e-20, -1e-20, 0.1, 2.675, 9.5, 99.5, 0.95, 0.995, 9.9999999999999995,
+            5e-324, 1.7976931348623157e308, 0.00000000000005, 1e15 + 0.5]
+    for _ in range(N):
+        k = rng.random()
+        if k < .3:
+            vals.append(rng.uniform(-100, 100))
+        elif k < .55:
+            vals.append(rng.randint(-4000, 4000) / (1 << rng.randint(0, 14)))     # exact ties at few decimals
+        elif k < .7:
+            vals.append(struct.unpack('d', struct.pack('Q', rng.getrandbits(64) & 0x7fefffffffffffff))[0] * rng.choice([1, -1]))
+        else:
+            vals.append(rng.uniform(-1, 1) * 10 ** rng.randint(-20, 20))
+    lines, info = [], []
+    for v in vals:
+        ff = rng.choice(['f0', 'f1', 'f2', 'f3', 'f5', 'f8', 'f13', 'f16', 'f17', 'e0', 'e1', 'e5', 'e8', 'e13', 'e16'])
+        lines.append(f'fmt {ff} {cm.fr(v)}')
+        info.append((v, ff))
+    outs = ctx.driver.ask_many(lines)
+    for (v, ff), o in zip(info, outs):
+        want = fmt_py(ff) % v
+        if v == 0 and want.startswith('-'):
+            want = want[1:]
+        p = o.split()
+        got = unhex(p[1]) if p[0] == 'ok' else o
+        ctx.stats.case('fmt', (v, ff), sample={'value': v, 'format': fmt_py(ff), 'text': want})
+        if got != want:
+            ctx.disagree('fmt', f'{fmt_py(ff)} % {v!r}: Python prints {want!r}, the model {got!r}', {'op': 'fmt', 'v': v, 'ff': ff})
+        elif Fraction(p[2]) != Fraction(want):
+            ctx.disagree('fmt-value', f'{fmt_py(ff)} % {v!r}: model value {p[2]} differs from the text {want!r}',
+                         {'op': 'fmt', 'v': v, 'ff': ff})
+    # the independent number parser against Python's own reading of the same tokens
+    toks = ['1.5', '-1.5e3', '+.5', '5.', '1e5', '1E-3', '.', 'e5', '1.5.', '0x10', '12', '-0', '1e', '1e+', '--1',
+            '1.5e+03', '007', '-.5e-2', '', '1_0', 'nan', 'inf', '1.0e', '+', '-', '3.e2']
+    toks += [(fmt_py(ff) % v) for v, ff in info[:200]]
+    outs = ctx.driver.ask_many(['pnum ' + hexs(t) for t in toks])
+    for t, o in zip(toks, outs):
+        want = 'ok ' + cm.fr(Fraction(t)) if _FLT.match(t) else 'err:format'
+        ctx.stats.case('pnum', t)
+        if o != want:
+            ctx.disagree('pnum', f'number token {t!r}: model parser says {o}, expected {want}', {'op': 'pnum', 'tok': t})
+
+
+def decode_pdata(o):
+    p = o.split()
+    if p[0] != 'ok':
+        return None
+    it = iter(p[1:])
+    hint = next(it)
+    wf = next(it) == '1'
+    natoms = int(next(it))
+    ntypes = int(next(it))
+    hilo = [Fraction(next(it)) for _ in range(9)]
+    na = int(next(it))
+    k = int(next(it))
+    atoms = []
+    for _ in range(na):
+        aid = int(next(it))
+        ty = int(next(it))
+        pos = [Fraction(next(it)) for _ in range(3)]
+        img = [int(next(it)) for _ in range(3)]
+        unw = [Fraction(next(it)) for _ in range(3)]
+        rel = [Fraction(next(it)) for _ in range(3)]
+        vals = [Fraction(next(it)) for _ in range(k)]
+        atoms.append({'vals': vals, 'image': img, 'unw': unw, 'rel': rel, 'id': aid, 'type': ty, 'pos': pos})
+    hv = next(it) == '1'
+    kv = int(next(it))
+    vel = None
+    if hv:
+        vel = [[Fraction(next(it)) for _ in range(kv)] for _ in range(na)]
+    return {'natoms': natoms, 'ntypes': ntypes, 'hilo': hilo, 'has_tilt': None, 'hint': None if hint == '-' else hint.replace('+', ' '),
+            'atoms': atoms, 'vel': vel, 'wf': wf}
+
+
+def run_cases(ctx, cases, tie=True):
+    """model vs implementation on the same cases: (a) text, (b) the Lean parser on the real text vs the system."""
+    lines = [model_line(c) for c in cases]
+    outs = ctx.driver.ask_many(lines)
+    follow = []
+    for c, line, o in zip(cases, lines, outs):
+        real = real_call(c)
+        kind = c['kind']
+        exact = exact_expected(c)
+        nontriv = real[0] == 'ok'
+        ctx.stats.case(kind, line, nontrivial=nontriv, sample=case_sample(c))
+        ctx.extra.setdefault('results', {}).setdefault(kind, {}).setdefault(real[0], 0)
+        ctx.extra['results'][kind][real[0]] += 1
+        mo = o.split()
+        if real[0] != 'ok':
+            if mo[0] == 'ok' or o != real[0]:
+                ctx.disagree(f'{kind}:error-class', f'{kind} dump: atomman raises {real[1]} ({real[0]}), the model answers '
+                                                    f'{o[:40]}', {'op': kind, 'case': case_replay(c)})
+            continue
+        if mo[0] != 'ok':
+            ctx.disagree(f'{kind}:error-class', f'{kind} dump: atomman writes a file, the model refuses with {o}',
+                         {'op': kind, 'case': case_replay(c)})
+            continue
+        mtext = unhex(mo[1])
+        rtext = real[1]
+        a, b = canon_zero(rtext), canon_zero(mtext)
+        if exact or not near_discontinuity(c['d']) or kind != 'data':
+            diff = None if a == b else text_diff(a, b, c['ff'], None if exact else written_magnitude(c))
+            ctx.extra.setdefault('text', {}).setdefault('identical' if a == b else ('within-precision' if diff is None else 'differs'), 0)
+            ctx.extra['text']['identical' if a == b else ('within-precision' if diff is None else 'differs')] += 1
+            if diff is not None:
+                ctx.disagree(f'{kind}:text', f'{kind} file text differs between atomman and the model '
+                                             f'({"exact regime" if exact else "to printed precision"}): {diff}',
+                             {'op': kind, 'case': case_replay(c), 'real': rtext, 'model': mtext})
+        if kind == 'data':
+            minfo = unhex(mo[2])
+            if minfo != real[2]:
+                ctx.disagree('data:info', f'command snippet differs: atomman {real[2]!r}, model {minfo!r}',
+                             {'op': kind, 'case': case_replay(c)})
+        if tie and not unresolved(c, rtext):
+            if kind == 'data':
+                f = unit_factors(c['units']).get('length') or Fraction(1)
+                ext = min(abs(F(c['d']['vects'][i][i])) for i in range(3)) / f
+                eps = 16 * quantum_of(c['ff'], written_magnitude(c)) / ext + Fraction(1, 10 ** 9)
+                follow.append((c, real, f"pdata {c['style'].replace(' ', '+')} {cm.fr(eps)} {hexs(rtext)}"))
+            elif kind == 'dump':
+                follow.append((c, real, f'pdump {hexs(rtext)}'))
+            elif kind == 'poscar':
+                follow.append((c, real, f'pposcar {hexs(rtext)}'))
+    if not follow:
+        return
+    outs = ctx.driver.ask_many([f[2] for f in follow])
+    for (c, real, _l), o in zip(follow, outs):
+        kind = c['kind']
+        ctx.stats.case('parse:' + kind, _l[:2000], sample=None)
+        if not o.startswith('ok'):
+            ctx.disagree(f'{kind}:unparsable', f'the independent {kind} parser of the model rejects atomman\'s output ({o})',
+                         {'op': kind, 'case': case_replay(c), 'real': real[1]})
+            continue
+        try:
+            if kind == 'data':
+                parsed = decode_pdata(o)
+                ref = py_parse_data(real[1], c['style'])
+                parsed['has_tilt'] = ref['has_tilt']
+                fails = check_data(c['d'], c['style'], c['units'], c['ff'], c['natypes'] or c['d']['natypes'], parsed)
+                if not parsed['wf'] and not fails:
+                    fails = [('wellformed', 'model well-formedness test (counts, ids 1..N, lo<hi, atoms inside) is false')]
+                same = (parsed['hilo'] == ref['hilo'] and [a['vals'] for a in parsed['atoms']] == [a['vals'] for a in ref['atoms']]
+                        and [a['image'] for a in parsed['atoms']] == [a['image'] for a in ref['atoms']] and parsed['vel'] == ref['vel'])
+            elif kind == 'dump':
+                parsed, same = decode_pdump(o, real[1])
+                fails = check_dump(c['d'], c['units'], c['ff'], parsed)
+            else:
+                parsed, same = decode_pposcar(o, real[1])
+                fails = check_poscar(c['d'], c['ff'], c['coordstyle'], c['scale'], c['symbols'], parsed)
+        except ValueError as e:
+            ctx.disagree(f'{kind}:parse', f'{kind}: the Python oracle parser rejects the output the model parser accepted: {e}',
+                         {'op': kind, 'case': case_replay(c), 'real': real[1]})
+            continue
+        if not same:
+            ctx.disagree(f'{kind}:parsers', f'{kind}: the model parser and the Python oracle parser read different values',
+                         {'op': kind, 'case': case_replay(c), 'real': real[1]})
+        for key, msg in fails:
+            ctx.disagree(f'{kind}:describes:{key}', f'{kind} file read by the model parser does not describe the system: {msg}',
+                         {'op': kind, 'case': case_replay(c), 'real': real[1]})
+
+
+def decode_pdump(o, text):
+    p = o.split()
+    it = iter(p[1:])
+    ts = int(next(it))
+    n = int(next(it))
+    tri = next(it) == '1'
+    boundary = next(it).split('+')
+    bbox = [Fraction(next(it)) for _ in range(6)]
+    hilo = [Fraction(next(it)) for _ in range(9)]
+    nc = int(next(it))
+    cols = next(it).split('+') if nc else []
+    rows = [[Fraction(next(it)) for _ in range(nc)] for _ in range(n)]
+    ref = py_parse_dump(text)
+    same = (ts == ref['timestep'] and n == ref['natoms'] and tri == ref['tri'] and boundary == ref['boundary']
+            and hilo == ref['hilo'] and cols == ref['cols'] and rows == [[Fraction(t) for t in r] for r in ref['rows']])
+    nv = int(next(it))
+    variants = {}
+    for _ in range(nv):
+        name = next(it)
+        variants[name] = [[Fraction(next(it)) for _ in range(3)] for _ in range(n)]
+    # the model's unscaled positions must agree with the oracle's unscaling
+    h = ref['hilo']
+    W = [[h[1] - h[0], 0, 0], [h[6], h[3] - h[2], 0], [h[7], h[8], h[5] - h[4]]]
+    WO = [h[0], h[2], h[4]]
+    for suf in ('s', 'su'):
+        names3 = [a + suf for a in 'xyz']
+        if all(x in ref['cols'] for x in names3):
+            want = [cart_of([Fraction(r[ref['cols'].index(x)]) for x in names3], W, WO) for r in ref['rows']]
+            if variants.get('x' + suf) != want:
+                same = False
+    return ref, same
+
+
+def decode_pposcar(o, text):
+    p = o.split()
+    it = iter(p[1:])
+    scale = Fraction(next(it))
+    lat = [[Fraction(next(it)) for _ in range(3)] for _ in range(3)]
+    sym = next(it)
+    nc = int(next(it))
+    counts = [int(next(it)) for _ in range(nc)]
+    cart = next(it) == '1'
+    n = int(next(it))
+    raw = [[Fraction(next(it)) for _ in range(3)] for _ in range(n)]
+    pos = [[Fraction(next(it)) for _ in range(3)] for _ in range(n)]
+    ref = py_parse_poscar(text)
+    same = (scale == ref['scale'] and lat == ref['lattice'] and counts == ref['counts'] and cart == ref['cart']
+            and raw == ref['raw'] and (None if sym == '-' else sym.split('+')) == ref['symbols'])
+    want = [[r[j] * scale for j in range(3)] if cart else cart_of(r, lat, [0, 0, 0]) for r in raw]
+    if pos != want:
+        same = False
+    return ref, same
+
+
+def correspond(ctx):
+    rng = ctx.rng
+    correspond_fmt(ctx, rng, ctx.n(1500, 30000))
+    nd, nu, npo, nt = ctx.n(260, 6000), ctx.n(160, 3000), ctx.n(160, 3000), ctx.n(60, 1000)
+    cases = [gen_data_case(rng, i) for i in range(nd)] + [gen_dump_case(rng, i) for i in range(nu)] \
+        + [gen_poscar_case(rng, i) for i in range(npo)] + [gen_table_case(rng, i) for i in range(nt)]
+    for i in range(0, len(cases), 200):
+        run_cases(ctx, cases[i:i + 200])
+    # bounding-box map and its inverse on their own
+    lines, hs = [], []
+    for _ in range(ctx.n(200, 4000)):
+        v, o = gen_box(rng, 'grid')
+        h = [o[0], o[0] + v[0][0], o[1], o[1] + v[1][1], o[2], o[2] + v[2][2], v[1][0], v[2][0], v[2][1]]
+        hs.append([F(x) for x in h])
+        lines.append('bbox ' + ' '.join(cm.fr(x) for x in h))
+    for h, o in zip(hs, ctx.driver.ask_many(lines)):
+        vals = cm.unfrs(o[3:])
+        xy, xz, yz = h[6:]
+        want = [h[0] + min(0, xy, xz, xy + xz), h[1] + max(0, xy, xz, xy + xz), h[2] + min(0, yz), h[3] + max(0, yz),
+                h[4], h[5]]
+        ctx.stats.case('bbox', tuple(h))
+        if vals[:6] != want or vals[6:] != h:
+            ctx.disagree('bbox', f'bounding box of {h}: model {vals[:6]}, LAMMPS formula {want}', {'op': 'bbox', 'h': [str(x) for x in h]})
+
+
+
+# ----------------------------------------------------------------------------------------
+# search: the clauses of the property on the real output, parsed by the Python oracle parsers
+# ----------------------------------------------------------------------------------------
+
+def should_succeed(c):
+    """is this a request LAMMPS' formats can express, so that raising is itself a failure of the property?"""
+    d = c['d']
+    V, _O, _P = fr_sys(d)
+    if c['kind'] == 'poscar':
+        return True
+    if not is_lammps_norm(V):
+        return False
+    if c['kind'] == 'data':
+        need = needed_props(c['style'], 'velocity' in d['props'])
+        if any(p[0] not in d['props'] for p in need):
+            return False
+        fields = list(layout_of(LAYOUT, c['style']))
+        if 'velocity' in d['props']:
+            fields += layout_of(VEL_LAYOUT, c['style'])
+        return all(oracle_factor(c['units'], f[1]) != 'undefined' for f in fields)
+    if c['kind'] == 'dump':
+        ids = d['props'].get('atom_id')
+        if ids is not None and len({tuple(r) for r in ids[2]}) != len(ids[2]):
+            return False
+        kinds = {'length'}
+        for nm, _sh in dump_props_for_wire(c):
+            kinds |= {k for (k, p, _c) in DUMPCOLS.values() if p == nm and k and k != 'scaled'}
+        return all(oracle_factor(c['units'], k) != 'undefined' for k in kinds)
+    return True
+
+
+def unresolved(c, text):
+    """the chosen float_format cannot resolve the cell at all (e.g. '%.1f' of a 0.02-wide cell): nothing to check."""
+    d = c['d']
+    if c['kind'] == 'poscar':
+        return False
+    f = unit_factors(c['units']).get('length') or Fraction(1)
+    ext = min(abs(F(d['vects'][i][i])) for i in range(3)) / f
+    return ext < 100 * quantum_of(c['ff'], ext)
+
+
+def oracle_case(ctx, c, report):
+    real = real_call(c)
+    kind = c['kind']
+    ctx.stats.case('oracle:' + kind, repr(case_replay(c))[:4000], nontrivial=real[0] == 'ok', sample=None)
+    rp = {'op': kind, 'case': case_replay(c)}
+    if real[0] != 'ok':
+        if should_succeed(c):
+            what = {'data': f"atom_style {c.get('style')!r}, units {c.get('units')!r}", 'dump': f"lammps_units {c.get('units')!r}",
+                    'poscar': f"coordstyle {c.get('coordstyle')!r}", 'table': ''}[kind]
+            report(f'{kind}:raises', f"System.dump('{ {'data': 'atom_data', 'dump': 'atom_dump'}.get(kind, kind)}') raises "
+                                     f'{real[1]} for a valid system ({what}); no file is written', rp)
+        return
+    text = real[1]
+    rp['real'] = text
+    if kind == 'table':
+        return check_table(ctx, c, text, report, rp)
+    if unresolved(c, text):
+        ctx.extra['unresolved_format'] = ctx.extra.get('unresolved_format', 0) + 1
+        return
+    try:
+        if kind == 'data':
+            parsed = py_parse_data(text, c['style'])
+            fails = check_data(c['d'], c['style'], c['units'], c['ff'], c['natypes'] or c['d']['natypes'], parsed,
+                               info=real[2], fname=c['fname'])
+        elif kind == 'dump':
+            parsed = py_parse_dump(text)
+            fails = check_dump(c['d'], c['units'], c['ff'], parsed)
+        else:
+            parsed = py_parse_poscar(text)
+            fails = check_poscar(c['d'], c['ff'], c['coordstyle'], c['scale'], c['symbols'], parsed)
+    except ValueError as e:
+        report(f'{kind}:malformed', f'{kind} file is not well-formed under the format rules: {e}', rp)
+        return
+    for key, msg in fails:
+        report(f'{kind}:{key}', f'{kind} file does not describe the system: {msg}', rp)
+
+
+def check_table(ctx, c, text, report, rp):
+    d = c['d']
+    lines = text.split('\n')
+    if lines and lines[-1] == '':
+        lines.pop()
+    names = [n for _p, _u, nm in c['cols'] for n in nm]
+    if c['header']:
+        if lines[0].split(' ') != names:
+            report('table:header', f'header line {lines[0]!r} vs column names {names}', rp)
+        lines = lines[1:]
+    n = len(d['atype'])
+    if len(lines) != n:
+        report('table:count', f'{len(lines)} rows for {n} atoms', rp)
+        return
+    V, O, P = fr_sys(d)
+    f = unit_factors(c['units'])
+    ck = Checker(c['ff'], magnitude(d, f.get('length') or None))
+    for k, l in enumerate(lines):
+        toks = l.split(' ')
+        if len(toks) != len(names):
+            report('table:row', f'row {k} has {len(toks)} values for {len(names)} columns', rp)
+            return
+        j = 0
+        for prop, us, nm in c['cols']:
+            for comp in range(len(nm)):
+                t = toks[j]
+                j += 1
+                want = prop_value(d, prop, comp, k)
+                is_int = prop in ('a_id', 'atype') or (prop in d['props'] and d['props'][prop][0])
+                if us == 'scaled':
+                    want = rel_of(P[k], V, O)[comp] if prop == 'pos' else want
+                    is_int = False
+                elif us != 'none':
+                    fac = oracle_factor(c['units'], us)
+                    if fac == 'undefined':
+                        continue
+                    want = want / fac if fac else want
+                    is_int = False
+                if is_int and not _INT.match(t):
+                    ck.fail('int', f'integer column {nm[comp]} written as {t!r}')
+                    continue
+                ck.num(f'{nm[comp]}[{k}]', p_num(t), want, 1 if us != 'scaled' else 4)
+    for key, msg in ck.fails:
+        report(f'table:{key}', f'table does not hold the system\'s values: {msg}', rp)
+
+
+def search(ctx, broken):
+    rng = random.Random(ctx.seed * 7919 + 17)
+    mult = 3 if broken else 1
+    nd, nu, npo, nt = (ctx.n(260, 5000) * mult, ctx.n(150, 3000) * mult, ctx.n(150, 3000) * mult, ctx.n(50, 800) * mult)
+    report = ctx.violate
+    # every atom style x unit style once, deterministically, before the random stream
+    base = []
+    k = 0
+    for st in ALL_STYLES + HYBRIDS:
+        for un in UNIT_STYLES:
+            c = gen_data_case(rng, k)
+            k += 1
+            c['style'], c['units'] = st, un
+            c['ff'] = pick_format(rng, un)
+            c['d'] = gen_desc(rng, c['d']['regime'], needed_props(st, k % 2 == 0))
+            if c['natypes'] is not None:
+                c['natypes'] = c['d']['natypes'] + 1
+            base.append(c)
+    for un in UNIT_STYLES:
+        c = gen_dump_case(rng, 0)
+        c['units'] = un
+        c['ff'] = pick_format(rng, un)
+        base.append(c)
+    cases = base + [gen_data_case(rng, i) for i in range(nd)] + [gen_dump_case(rng, i) for i in range(nu)] \
+        + [gen_poscar_case(rng, i) for i in range(npo)] + [gen_table_case(rng, i) for i in range(nt)]
+    for c in cases:
+        oracle_case(ctx, c, report)
+    # pinned regression inputs (simple systems that exposed defects before)
+    for c in pinned_cases():
+        oracle_case(ctx, c, report)
+
+
+def pinned_cases():
+    def desc(props=(), pbc=(True, True, True), vects=None, origin=(0.0, 0.0, 0.0), natoms=3):
+        vects = vects or [[4.0, 0.0, 0.0], [0.0, 8.0, 0.0], [0.0, 0.0, 2.0]]
+        pos = [[0.5, 1.25, 1.0], [1.25, 3.5, 0.125], [3.0, 7.5, 1.5]][:natoms]
+        d = {'pbc': list(pbc), 'vects': vects, 'origin': list(origin), 'atype': [1, 2, 1][:natoms], 'natypes': 2,
+             'pos': pos, 'props': {}, 'symbols': None, 'regime': 'grid'}
+        for name, is_int, nc in props:
+            d['props'][name] = (bool(is_int), () if nc == 1 else (nc,),
+                                [[(k + 1) * (0.5 if not is_int else 1) + c for c in range(nc)] for k in range(natoms)])
+        return d
+    out = []
+    for cs, sc in (('direct', 1.0), ('cartesian', 2.0), ('direct', 2.0), ('cartesian', 1.0)):
+        out.append({'kind': 'poscar', 'd': desc(), 'coordstyle': cs, 'scale': sc, 'symbols': None, 'header': '', 'ff': 'e13'})
+    for st in ('atomic', 'charge', 'hybrid charge'):
+        for un in ('metal', 'si', 'nano'):
+            out.append({'kind': 'data', 'd': desc(needed_props(st, True)), 'style': st, 'units': un,
+                        'ff': pick_format(random.Random(0), un), 'natypes': None, 'fname': None})
+    out.append({'kind': 'data', 'd': desc(vects=[[4.0, 0.0, 0.0], [0.0, 8.0, 0.0], [0.0, 1.0, 2.0]]), 'style': 'atomic',
+                'units': 'metal', 'ff': 'f13', 'natypes': None, 'fname': 'a.dat'})
+    out.append({'kind': 'dump', 'd': desc(vects=[[4.0, 0.0, 0.0], [1.0, 8.0, 0.0], [-1.5, 1.0, 2.0]], origin=(1.0, -2.0, 0.5)),
+                'units': 'metal', 'ff': 'f13', 'prop_names': None})
+    return out
+
+
+def replay(ctx, payload):
+    r = payload.get('replay', {})
+    if 'case' in r:
+        c = case_from_replay(r['case'])
+        before = len(ctx.violations)
+        oracle_case(ctx, c, ctx.violate)
+        real = real_call(c)
+        print('replay', c['kind'], {k: v for k, v in c.items() if k != 'd'})
+        print(real[1] if len(real) > 1 else real)
+        if real[0] == 'ok' and c['kind'] == 'data':
+            print(real[2])
+        print('violations on this input:', [(f.key, f.what) for f in ctx.violations[before:]])
+    elif r.get('op') == 'fmt':
+        print('fmt', fmt_py(r['ff']) % r['v'])
+    else:
+        search(ctx, True)
